@@ -48,6 +48,20 @@ pub assume_specification [<Field as Clone>::clone] (b: &Field) -> (r: Field) ens
 #[verifier::external_body] pub fn trailing_single_comments(e: &Expression) -> (r: Vec<Token>) { unimplemented!() /* value.trailing_comments_search(CommentSearch::Single) */ }
 """
 
+VALUE_SPEC = r"""
+pub trait HasInlineComments { fn has_inline_comments(&self) -> bool; }
+impl HasInlineComments for Expression { #[verifier::external_body] fn has_inline_comments(&self) -> bool { unimplemented!() } }
+// the comments a trailing-trivia list holds, by kind, each with the space trailing_comments_search puts in front (class B: iterator chain)
+pub uninterp spec fn expr_trailing_comments(e: Expression, single: bool) -> Seq<Token>;
+#[verifier::external_body] pub fn trailing_comments_of(e: &Expression, search: CommentSearch) -> (r: Vec<Token>)
+    ensures search is Single ==> r@ == expr_trailing_comments(*e, true), search is Multiline ==> r@ == expr_trailing_comments(*e, false) { unimplemented!() }
+// what update_trailing_trivia(Replace(v)) leaves behind the expression
+pub uninterp spec fn expr_trailing_is(e: Expression, v: Seq<Token>) -> bool;
+#[verifier::external_body] pub fn replace_trailing(e: Expression, v: Vec<Token>) -> (r: Expression)
+    ensures skel(r) == skel(e), expr_trailing_is(r, v@) { unimplemented!() }
+#[verifier::external_body] pub fn lines_fewer(a: &Expression, b: &Expression) -> bool { unimplemented!() }
+"""
+
 def items():
     its = common_items()
     its += [
@@ -61,8 +75,27 @@ def items():
     requires wf(skel(*expression)),
     ensures erase(skel(r)) == erase(skel(*expression)), begins_with_bracket_string(r) ==> may_begin_with_bracket_string(*expression),"""),
         Fn(EX, "is_brackets_string", mode="stub", proved_in="expr", contract="ensures r == may_begin_with_bracket_string(*expression),"),
-        Fn(TB, "format_field_expression_value", mode="stub", contract="requires wf(skel(*expression)), ensures erase(skel(r)) == erase(skel(*expression)),",
-           note="chooses between format_expression and hang_expression (both proved in unit expr); the choice itself is layout"),
+        Fn(EX, "hang_expression", mode="stub", proved_in="expr", contract="""
+    requires wf(skel(*expression)),
+    ensures erase(skel(r)) == erase(skel(*expression)),"""),
+        Fn(TU, "can_hang_expression", mode="stub"),
+        Raw(VALUE_SPEC, module="formatters::table"),
+        Fn(TB, "take_singleline_trailing_comments", contract="""
+    ensures skel(r.0) == skel(value),
+        r.1@ == expr_trailing_comments(value, true), expr_trailing_is(r.0, expr_trailing_comments(value, false)), //# C03.field_value_comments
+""", edits=[
+            Hole("value.trailing_comments_search(CommentSearch::Single)", "trailing_comments_of(&value, CommentSearch::Single)", kind="wrapper", why="GetTrailingTrivia default method (iterator chain)"),
+            Hole("value.trailing_comments_search(CommentSearch::Multiline)", "trailing_comments_of(&value, CommentSearch::Multiline)", kind="wrapper", why="GetTrailingTrivia default method (iterator chain)"),
+            Hole("value.update_trailing_trivia(FormatTriviaType::Replace(multiline_comments))", "replace_trailing(value, multiline_comments)", kind="wrapper", why="update_trailing_trivia(Replace(..)) as a call that records what is left behind the value"),
+        ]),
+        Fn(TB, "format_field_expression_value", contract="""
+    requires wf(skel(*expression)),
+    ensures erase(skel(r.0)) == erase(skel(*expression)), //# C02.field_value_same
+        exists|f: Expression| erase(skel(f)) == erase(skel(*expression)) && r.1@ == expr_trailing_comments(f, true) && expr_trailing_is(r.0, expr_trailing_comments(f, false)), //# C03.field_value_comments_of_formatted
+""", edits=[
+            Hole('''format!("{hanging_value}").lines().count()
+                    < format!("{singleline_value}").lines().count()''', "lines_fewer(&hanging_value, &singleline_value)", kind="wrapper", why="Display line count of two nodes (layout choice)"),
+        ]),
         Fn(TB, "handle_field_key_equals_comments", mode="stub", sig_edits=[Hole("<T: Node>", "<T: VNode>", kind="proxy", why="proxy trait for the sealed full_moon::node::Node")]),
         Fn(TB, "format_field", contract="""
     requires field_wf(*field), !(decision(*ctx, field.key()) is NotInRange),   // callers only pass fields of a table that is being formatted
@@ -70,7 +103,6 @@ def items():
         decision(*ctx, field.key()) is Skip ==> r.0 == *field && r.1@.len() == 0, //# C08.field_skip
         !(decision(*ctx, field.key()) is Skip) ==> field_post(*field, r.0), //# C02.field_same
 """, edits=[
-            Hole("value.trailing_comments_search(CommentSearch::Single)", "trailing_single_comments(value)", kind="wrapper", why="GetTrailingTrivia default method (iterator chain)", count=2),
             Hole("expression.trailing_comments_search(CommentSearch::Single)", "trailing_single_comments(expression)", kind="wrapper", why="GetTrailingTrivia default method (iterator chain)"),
             Hole("strip_trivia(&key).to_string().len()", "verif::hole_usize()", why="Display width of a node"),
         ]),
@@ -79,6 +111,9 @@ def items():
 
 LABELS = {
     "C08.field_skip": dict(props=["C08"], text="format_field returns a table field carrying `-- stylua: ignore` (or inside an ignore region) unchanged, and moves no trailing comment out of it"),
+    "C03.field_value_comments": dict(props=["C03"], text="take_singleline_trailing_comments: the line comments trailing the value are returned (to be printed behind the comma) and exactly its block comments stay behind it — both read from the same value, so none is dropped"),
+    "C03.field_value_comments_of_formatted": dict(props=["C03"], text="format_field_expression_value: the comments it hands on are those trailing the formatted value (after redundant parentheses are removed), not those of the original expression"),
+    "C02.field_value_same": dict(props=["C02"], text="format_field_expression_value keeps the value's expression tree whichever layout it picks"),
     "C02.field_same": dict(props=["C02", "C01"], text="format_field keeps the field kind, the key token / key expression tree and the value's expression tree; a bracketed key that prints with a leading long-bracket string is padded with a space"),
 }
 
